@@ -115,7 +115,9 @@ def bootstrap_ci(
             a_num = np.nansum((theta - theta_hat) ** 3, axis=0)
             a_den = 6 * np.nansum((theta - theta_hat) ** 2, axis=0) ** 1.5
             # If a=0, the method reduces to the non-accelerated bias correction
-            a = np.divide(a_num, a_den, out=np.zeros_like(a_num), where=a_den != 0)
+            a = np.divide(
+            a_num, a_den, out=np.zeros_like(a_num, dtype=float), where=a_den != 0
+        )
             # See (11.39) in Efron, Hastie
             fin = np.isfinite(z0)
             z_lower = np.copy(z0)
